@@ -127,8 +127,16 @@ impl<'a> SendBlocksProofProcess<'a> {
             // Check extra hash for blocks
             let is_v1 = self.message.count_extra_fields() >= 2;
             let extensions = if is_v1 {
-                let message_v1 =
-                    packed::SendBlocksProofV1Reader::new_unchecked(self.message.as_slice());
+                // The extra fields are not verified when the message is parsed as the old version.
+                let message_v1 = match packed::SendBlocksProofV1Reader::from_compatible_slice(
+                    self.message.as_slice(),
+                ) {
+                    Ok(message_v1) => message_v1,
+                    Err(err) => {
+                        let errmsg = format!("failed to parse the message as v1 since {}", err);
+                        return StatusCode::MalformedProtocolMessage.with_context(errmsg);
+                    }
+                };
                 let uncle_hashes: Vec<_> = message_v1
                     .blocks_uncles_hash()
                     .iter()
